@@ -629,3 +629,48 @@ Proof.
   intros order M rho C HM Hwf. destruct (eval_rat_correct order M (fun x => zq (rho x)) C HM Hwf) as [H1 H2].
   destruct (eval_rat order M C) as [Cr m]. cbn [fst snd] in *. split; [exact H1|]. rewrite <- evalQ_of_Z. exact H2.
 Qed.
+
+(* ================================================================ the numeric exits of coefficient_sgn *)
+Definition qc_sgn (q : Qc) : Z := Z.sgn (Qnum (this q)).
+
+Lemma Qnum_sgn_compat (a b : Q) : (a == b)%Q -> Z.sgn (Qnum a) = Z.sgn (Qnum b).
+Proof.
+  unfold Qeq. destruct a as [na da], b as [nb db]. cbn [Qnum Qden]. intros H.
+  destruct na, nb; cbn in *; try reflexivity; try discriminate; lia.
+Qed.
+
+Lemma qc_sgn_zq c : qc_sgn (zq c) = Z.sgn c.
+Proof.
+  unfold qc_sgn, zq, Q2Qc, this. rewrite (Qnum_sgn_compat _ (inject_Z c) (Qred_correct _)). reflexivity.
+Qed.
+
+Lemma qc_sgn_scale m v : (0 < m)%Z -> qc_sgn (zq m * v) = qc_sgn v.
+Proof.
+  intros Hm. unfold qc_sgn, zq, Qcmult, Q2Qc, this at 1.
+  rewrite (Qnum_sgn_compat _ (inject_Z m * this v)%Q).
+  2:{ rewrite Qred_correct. apply Qmult_comp; [apply Qred_correct|reflexivity]. }
+  destruct (this v) as [n d]. cbn [Qnum Qmult inject_Z]. rewrite Z.sgn_mul. destruct m; lia.
+Qed.
+
+Lemma evalQ_numeric rho p c : mp_numeric p = Some c -> mp_evalQ rho p = zq c.
+Proof.
+  destruct p as [|[[|ve m] c'] [|t p]]; cbn [mp_numeric]; try discriminate; intros H; injection H as <-.
+  - reflexivity.
+  - rewrite evalQ_cons. change (mp_evalQ rho []) with (Q2Qc 0). cbn [fst snd]. change (mono_evalQ rho []) with 1. ring.
+Qed.
+
+(* whenever coefficient_sgn returns through one of its two numeric exits, it returns the sign of the exact value of
+   C at the point where the rational values are substituted (whatever the other variables are) *)
+Theorem coef_sgn_numeric_correct order M rho C s :
+  (forall x p q, M x = Some (p, q) -> (0 < q)%Z) -> mp_wf C = true ->
+  coef_sgn_numeric order M C = Some s -> s = qc_sgn (mp_evalQ (subst_rho order M rho) C).
+Proof.
+  intros HM Hwf. unfold coef_sgn_numeric.
+  destruct (mp_numeric C) as [c|] eqn:EC.
+  - intros H; injection H as <-. rewrite (evalQ_numeric _ C c EC). symmetry. apply qc_sgn_zq.
+  - destruct (mp_numeric (fst (eval_rat order M C))) as [c|] eqn:ER; [|discriminate].
+    intros H; injection H as <-.
+    destruct (eval_rat_correct order M rho C HM Hwf) as [Hpos Hval].
+    rewrite (evalQ_numeric rho _ c ER) in Hval.
+    rewrite <- (qc_sgn_scale _ _ Hpos), <- Hval. symmetry. apply qc_sgn_zq.
+Qed.
